@@ -1,20 +1,20 @@
-(* Outcomes of modelled Rust code: a g_value, a p_panic (with the site that panicked), or fuel exhaustion
+(* Outcomes of modelled Rust code: a value, a panic (with the site that panicked), or fuel exhaustion
    (a loop/recursion bound of the model was hit: excluded by the termination theorems, never a default). *)
 From ApolloVerif Require Import Base.Chars.
 
-(* the p_panic sites of the parser *)
+(* the panic sites of the parser *)
 Inductive pwhy :=
-| PnPopFinished            (* Parser::p_pop: .expect("Could not p_pop a token from the lexer") *)
-| PnPushIgnoredUnreachable (* Parser::p_push_ignored: unreachable!() on a non-ignored pending token *)
-| PnBuilderFinishNode      (* rowan GreenNodeBuilder::p_finish_node: parents.pop().unwrap() / drain out of range *)
+| PnPopFinished            (* Parser::pop: .expect("Could not pop a token from the lexer") *)
+| PnPushIgnoredUnreachable (* Parser::push_ignored: unreachable!() on a non-ignored pending token *)
+| PnBuilderFinishNode      (* rowan GreenNodeBuilder::finish_node: parents.pop().unwrap() / drain out of range *)
 | PnBuilderCheckpointLen   (* start_node_at: assert!(checkpoint <= children.len()) *)
 | PnBuilderCheckpointParent(* start_node_at: assert!(checkpoint >= first_child) *)
-| PnBuilderFinish          (* p_finish: assert_eq!(children.len(), 1) / root is a token *)
-| PnRecUnbalanced          (* g_document: assert_eq!(p.recursion_limit.current, 0) *)
-| PnRecUnderflow           (* LimitTracker::decrement: usize underflow (debug: p_panic; release: wrap) *)
-| PnNameSlice              (* g_name::g_validate_name: g_name[1..] off a char boundary *)
-| PnPeekNZero              (* p_peek_n_inner: n - 1 with n = 0 *)
-| PnDebugAssert.           (* p_peek_while / p_peek_while_kind: debug_assert!(before != current_token) *)
+| PnBuilderFinish          (* finish: assert_eq!(children.len(), 1) / root is a token *)
+| PnRecUnbalanced          (* document: assert_eq!(p.recursion_limit.current, 0) *)
+| PnRecUnderflow           (* LimitTracker::decrement: usize underflow (debug: panic; release: wrap) *)
+| PnNameSlice              (* name::validate_name: name[1..] off a char boundary *)
+| PnPeekNZero              (* peek_n_inner: n - 1 with n = 0 *)
+| PnDebugAssert.           (* peek_while / peek_while_kind: debug_assert!(before != current_token) *)
 
 Inductive poutcome (A : Type) :=
 | POk (a : A)
